@@ -48,6 +48,41 @@ def parNames (P : Obj V K) : List Name := P.paramNames
 def handed (P : Obj V K) (cur : Name → V) (n : Name) : Except Err (Obj V K) :=
   P.cond [] (others (parNames P) cur n)
 
+/-- `isinstance(self.target, JointDistribution)`: the plain joint, the stacked joint and
+    `MultipleLikelihoodPosterior` are (sub)classes of it; `Posterior`, a single `Distribution`, … are not -/
+def isJointInstance : Obj V K → Bool
+  | .joint _ _ => true
+  | _ => false
+
+/-- what the constructors / the first call raise because of the CLASS of the target -/
+inductive CErr | attributeError | valueError
+  deriving DecidableEq, Repr
+
+/-- `HybridGibbs.__init__` on a target that is not a joint (a posterior with a single free variable reduces
+    to `Posterior` / `Distribution`): `_get_initial_points` calls `self.target.get_density(n)` for every
+    sampler WITHOUT `initial_point` (`AttributeError`: only joints have `get_density`); with all initial
+    points given the constructor reaches `validate_targets` (151-156), which raises
+    `ValueError('Target distribution must be a JointDistribution.')`.  A `MultipleLikelihoodPosterior`
+    (one free variable with two or more children) IS a `JointDistribution` and is accepted. -/
+def hybridTargetVerdict (P : Obj V K) (allInitialPointsGiven : Bool) : Option CErr :=
+  if isJointInstance P then none
+  else if allInitialPointsGiven then some .valueError else some .attributeError
+
+/-- legacy `Gibbs`: the constructor checks nothing; the first `sample` calls
+    `self.target.get_density(n)` in `_get_initial_points` (`AttributeError` unless the target is a joint) -/
+def legacyTargetVerdict (P : Obj V K) : Option CErr :=
+  if isJointInstance P then none else some .attributeError
+
+/-- `get_samples`: `Samples(array, self.target.get_density(n).geometry)` — the dimension of the geometry the
+    stored sweeps of block `n` are wrapped in (`none`: no density of that name, `ValueError`) -/
+def samplesGeometryDim (P : Obj V K) (n : Name) : Option Nat :=
+  match P with
+  | .joint _ ds => (ds.filterMap (fun d => match d with
+      | .dist F _ _ => if F.name = n then some F.dim else none
+      | .lik F _ _ _ => if F.name = n then some F.dim else none
+      | .eval _ _ _ => none)).head?
+  | _ => none
+
 /-- `_set_targets`: the targets of all blocks for one tuple of current values, in `par_names` order -/
 def handedAll (P : Obj V K) (cur : Name → V) : List (Name × Except Err (Obj V K)) :=
   (parNames P).map (fun n => (n, handed P cur n))
